@@ -11,7 +11,7 @@ from . import C09
 PROPERTY = "C18"
 LEVEL = "exploration"
 TIMEOUT = 600
-BUDGET = {"quick": 600, "thorough": 3000}
+BUDGET = {"quick": 600, "thorough": 3600}
 RULE = ("Generated programs (5-400 entities: expression DAGs, memory cells, latches, user entities far from the "
         "origin and at negative coordinates) are compiled by the real compiler with --power-poles T for T in "
         "{small, medium, big, substation} and without the option, under injected solver schedules. With the option: "
